@@ -122,8 +122,13 @@ func (w *World) AddNode(name string, keyIdx int) (*Node, error) {
 
 // NodeOnDisk boots a node on an existing disk image (twin / crash image / fresh replica).
 func (w *World) NodeOnDisk(name string, keyIdx int, d *simkv.Disk) (*Node, error) {
+	return w.NodeOnDiskWith(name, keyIdx, d, w.K)
+}
+
+// NodeOnDiskWith is NodeOnDisk with its own knobs.
+func (w *World) NodeOnDiskWith(name string, keyIdx int, d *simkv.Disk, k *Knobs) (*Node, error) {
 	n := &Node{W: w, Name: name, KeyIdx: keyIdx, Root: w.newRoot(name), Disk: d}
-	writeNodeDir(n.Root, keyIdx, w.G, w.K)
+	writeNodeDir(n.Root, keyIdx, w.G, k)
 	simkv.Mount(n.Root, d)
 	if err := n.Boot(); err != nil {
 		simkv.Unmount(n.Root)
@@ -139,6 +144,14 @@ func (w *World) Fresh(name string, keyIdx int) (*Node, error) {
 		return nil, fmt.Errorf("no genesis image yet")
 	}
 	return w.NodeOnDisk(name, keyIdx, w.genImg.Clone())
+}
+
+// FreshWith is Fresh with its own knobs.
+func (w *World) FreshWith(name string, keyIdx int, k *Knobs) (*Node, error) {
+	if w.genImg == nil {
+		return nil, fmt.Errorf("no genesis image yet")
+	}
+	return w.NodeOnDiskWith(name, keyIdx, w.genImg.Clone(), k)
 }
 
 // Drop unmounts a temporary node and removes its directory.
